@@ -2119,9 +2119,11 @@ fn find_required_sections<'data, A: Arch>(
         );
     }
 
-    let mut errors: Vec<Error> = take(resources.errors.lock().unwrap().as_mut());
+    let errors: Vec<Error> = take(resources.errors.lock().unwrap().as_mut());
     // TODO: Figure out good way to report more than one error.
-    if let Some(error) = errors.pop() {
+    // Errors were pushed in whatever order our threads happened to hit them. Pick the one we report
+    // in a way that doesn't depend on thread scheduling.
+    if let Some(error) = errors.into_iter().min_by_key(|e| e.to_string()) {
         return Err(error);
     }
 
